@@ -79,6 +79,10 @@ def harness_list(tier):
         ("H4=/E37/2step", [("E37", "A", b"pw1", 3, 1), ("E37", "B", b"pw1", 4, 0), ("E37", "S", b"pw2", 1, None), ("E37'", "S", b"pw2", 2, None)], 2),
         ("H3/ParamsEd25519/2step", [("ParamsEd25519", "A", b"pw1", 3, 1), ("ParamsEd25519", "B", b"pw1", 5, 0), ("ParamsEd25519", "S", b"pw2", 7, None)], 2),
         ("H3/Params1024/2step", [("Params1024", "A", b"pw1", 3, 1), ("Params1024", "B", b"pw1", 5, 0), ("Params1024", "S", b"pw2", 7, None)], 2),
+        # edge scalars: sessions that draw 0 / q-1, so that identity elements (shared singletons in some groups) and K = identity occur
+        ("H4zero/E37/2step", [("E37", "A", b"pw1", 0, 1), ("E37", "B", b"pw1", 0, 0), ("E37", "S", b"pw2", 0, None), ("E37", "A", b"pw1", 3, 1)], 2),
+        ("H4zero/T23/2step", [("T23", "A", b"pw1", 0, 1), ("T23", "B", b"pw1", 0, 0), ("T23", "S", b"pw2", 0, None), ("T23", "A", b"pw1", 10, 1)], 2),
+        ("H3zero/ParamsEd25519/2step", [("ParamsEd25519", "A", b"pw1", 0, 1), ("ParamsEd25519", "B", b"pw1", 0, 0), ("ParamsEd25519", "S", b"pw2", 0, None)], 2),
         ("H4mix/T23+E109/3step", [("T23", "S", b"pw1", 3, 1), ("T23", "S", b"pw1", 5, 0), ("E109", "A", b"pw2", 6, 3), ("E109", "B", b"pw2", 2, 2)], 3 if not q else 2),
     ]
     if not q:
